@@ -759,7 +759,8 @@ def sweep_cells(tier, consts, lookups_only=False):
         cells += [c for c in cells_C18("quick", consts) if c.enforce and (c.id.startswith("round_pow2") or ".u64" in c.id or ".u8" in c.id or "alloc" in c.id)]
         cells += binio_cells("quick")
         if tier == "thorough":   # the payload-loop cells take minutes each; in the quick tier they run under C06/C08 only
-            cells += [c for c in array_io_cells("quick", ["read", "write"]) if "M1.float" in c.id]
+            # (the float reader in the debug flavour is not used: one of its obligation groups runs > 20 min)
+            cells += [c for c in array_io_cells("quick", ["read", "write"]) if "read.M1.double" in c.id or "write.M1.float" in c.id]
         cells += cells_C12("quick", consts)
     cells = [c for c in cells if c.enforce]
     return cells
